@@ -5,7 +5,9 @@
 From Coq Require Import List ZArith Bool Permutation.
 From LJT Require Import model.Huff gen.GenNbits gen.GenStdHuff proofs.NbitsProofs proofs.HuffCodeProofs
   proofs.HuffGenProofs3 proofs.HuffGenProofs4 proofs.HuffGenDepth
-  gen.GenHuffGen proofs.HuffGenConst.
+  gen.GenHuffGen proofs.HuffGenConst
+  model.HuffSym gen.GenHuffSym proofs.HuffSymProofs proofs.HuffBridgeProofs.
+From LJT Require model.T81Spec proofs.T81BlockProofs proofs.T81HuffProofs.
 Import ListNotations.
 Local Open Scope Z_scope.
 
@@ -195,3 +197,160 @@ Theorem C19_source_constants :
   gen_clen_test_strict = true /\ SENT < DEAD /\ (LIMIT_LEN < MAX_CLEN)%nat.
 Proof. exact huffgen_constants_match. Qed.
 Print Assumptions C19_source_constants.
+
+(* ---- round 3: which histograms an image can produce; agreement with the
+   independent Annex C reading of C04 (T81Spec) ---- *)
+Module T := T81Spec.
+
+(* the guards and constants of the statistics-gathering code (htest_one_block, jcphuff.c emit sites, jclhuff.c) used by the symbol models = those of the source now (gen/GenHuffSym.v) *)
+Theorem C19_symbol_source_constants :
+  COEF_BITS_EXTRA = gen_seq_COEF_BITS_EXTRA /\ COEF_BITS_EXTRA = gen_progdc_COEF_BITS_EXTRA /\
+  COEF_BITS_EXTRA = gen_first_COEF_BITS_EXTRA /\
+  DC_EXTRA = gen_seq_DC_EXTRA /\ DC_EXTRA = gen_progdc_DC_EXTRA /\
+  ZRL = gen_seq_ZRL /\ ZRL = gen_first_ZRL /\ ZRL = gen_refine_ZRL /\ EOB = gen_seq_EOB /\
+  RUN_SHIFT = gen_seq_RUN_SHIFT /\ RUN_SHIFT = gen_first_RUN_SHIFT /\
+  RUN_SHIFT = gen_refine_RUN_SHIFT /\ RUN_SHIFT = gen_eobrun_SHIFT /\
+  RUN_MAX = gen_seq_RUN_MAX /\ RUN_MAX = gen_first_RUN_MAX /\ RUN_MAX = gen_refine_RUN_MAX /\
+  ZRL_RUN = gen_seq_ZRL_RUN /\ ZRL_RUN = gen_first_ZRL_RUN /\ ZRL_RUN = gen_refine_ZRL_RUN /\
+  EOBRUN_LIMIT = gen_first_EOBRUN_LIMIT /\ EOBRUN_LIMIT = gen_refine_EOBRUN_LIMIT /\
+  EOBRUN_NBITS_MAX = gen_EOBRUN_NBITS_MAX /\ MAX_CORR_BITS = gen_MAX_CORR_BITS /\
+  DCTSIZE2 = gen_DCTSIZE2 /\ MAX_DIFF_BITS = gen_MAX_DIFF_BITS /\
+  DIFF_SIGN = gen_DIFF_SIGN /\ DIFF_MASK = gen_DIFF_MASK /\
+  NCOUNTS = gen_seq_NCOUNTS /\ NCOUNTS = gen_prog_NCOUNTS /\ NCOUNTS = gen_lossless_NCOUNTS /\
+  lossy_precisions = gen_lossy_precisions /\ JPEG_MAX_DIMENSION = gen_JPEG_MAX_DIMENSION /\
+  MAX_DIFF_BITS = gen_lossless_prec_hi.
+Proof. exact huffsym_constants_match. Qed.
+Print Assumptions C19_symbol_source_constants.
+
+(* sequential statistics pass: for ALL coefficient values the ERREXIT guards let through, one block counts 1 DC symbol of the DC class and at most 63 AC symbols of the AC class *)
+Theorem C19_seq_block_symbols :
+  forall prec last_dc zz s a,
+  max_coef_bits prec <= 15 -> length zz = 64%nat ->
+  htest_one_block prec last_dc zz = Some (s, a) ->
+  okc (CDc prec) s /\ Forall (okc (CAcSeq prec)) a /\ (length a <= 63)%nat.
+Proof. exact htest_one_block_ok. Qed.
+Print Assumptions C19_seq_block_symbols.
+
+(* progressive DC first pass: every counted symbol is in the DC class *)
+Theorem C19_prog_dc_symbols :
+  forall prec Al coef last_dc s ld',
+  dc_first_symbol prec Al coef last_dc = Some (s, ld') -> okc (CDc prec) s.
+Proof. exact dc_first_symbol_ok. Qed.
+Print Assumptions C19_prog_dc_symbols.
+
+(* progressive AC first/refine passes: any interleaving of MCUs and EOBRUN flushes from EOBRUN = 0 counts only symbols of the progressive AC class (EOBn, ZRL, run/size) and keeps 0 <= EOBRUN < 0x7FFF *)
+Theorem C19_prog_ac_symbols :
+  forall prec ops st out st',
+  max_coef_bits prec <= 15 -> 1 <= max_coef_bits prec ->
+  Forall (op_ok prec) ops -> pinv st ->
+  pop_run st ops = Some (out, st') ->
+  Forall (okc (CAcProg prec)) out /\ pinv st'.
+Proof. exact pop_run_ok. Qed.
+Print Assumptions C19_prog_ac_symbols.
+
+(* lossless pass: every difference (any integer) is counted in category 0..16 *)
+Theorem C19_lossless_symbols :
+  forall diff,
+  exists s, lossless_symbol diff = Some s /\ okc CLossless s.
+Proof. exact lossless_symbol_ok. Qed.
+Print Assumptions C19_lossless_symbols.
+
+(* histograms that arise from an image: for each of the seven table classes and fewer than 10^9 counted symbols, at most |class| <= 240 symbols are non-zero and the generator returns a good, valid table accepted by both derived-table builders (the <= 254 hypothesis of C19_gen_table_always_valid is discharged) *)
+Theorem C19_image_histograms_admissible :
+  forall c syms,
+  In c all_classes ->
+  Forall (okc c) syms ->
+  Z.of_nat (length syms) + 1 <= SENT ->
+  let freq := count_syms syms in
+  (forall f, In f freq -> 0 <= f) /\
+  (forall i, nth i freq 0 <= Z.of_nat (length syms)) /\
+  sumZ (firstn 256 freq) = Z.of_nat (length syms) /\
+  (length (nz_scan (firstn 256 freq) 0) <= length (class_set c))%nat /\
+  (length (class_set c) <= 240)%nat /\
+  exists t, gen_optimal_table freq = inr t /\
+    good_table t (map fst (nz_scan (firstn 256 freq) 0)) /\
+    valid_table t = true /\
+    (exists ct, make_c_derived (h_bits t) (h_vals t) 255 = Some ct) /\
+    (forall isDC, exists dt, make_d_derived (h_bits t) (h_vals t) isDC 255 = Some dt).
+Proof. exact image_histograms_admissible. Qed.
+Print Assumptions C19_image_histograms_admissible.
+
+(* whole sequential statistics pass: needs exactly 63 * #blocks + 1 <= 10^9 *)
+Theorem C19_seq_pass_admissible :
+  forall prec blocks ds acs,
+  In prec lossy_precisions ->
+  Forall (fun b => length (snd b) = 64%nat) blocks ->
+  htest_blocks prec blocks = Some (ds, acs) ->
+  63 * Z.of_nat (length blocks) + 1 <= SENT ->
+  Forall (okc (CDc prec)) ds /\ Forall (okc (CAcSeq prec)) acs /\
+  Z.of_nat (length ds) + 1 <= SENT /\ Z.of_nat (length acs) + 1 <= SENT /\
+  In (CDc prec) all_classes /\ In (CAcSeq prec) all_classes.
+Proof. exact seq_pass_admissible. Qed.
+Print Assumptions C19_seq_pass_admissible.
+
+(* boundary witness outside the property quantifier (total >= 10^9): constant 32768x32768 lossless image, the only symbol gets no code *)
+Theorem C19_counts_above_1e9_lossless_boundary :
+  let n := Z.to_nat (32768 * 32768) in
+  let diffs := repeat 0 n in
+  let syms := repeat 0 n in
+  32768 <= JPEG_MAX_DIMENSION /\
+  map lossless_symbol diffs = map Some syms /\ Forall (okc CLossless) syms /\
+  SENT < Z.of_nat (length syms) /\
+  exists t ct, gen_optimal_table (count_syms syms) = inr t /\
+    h_vals t = [] /\ ~ good_table t [0] /\
+    make_c_derived (h_bits t) (h_vals t) 255 = Some ct /\ encode_sym ct 0 = None.
+Proof. exact huge_lossless_image_refuted. Qed.
+Print Assumptions C19_counts_above_1e9_lossless_boundary.
+
+(* boundary witness outside the property quantifier: three AC symbols counted 6.0e8 times each: over-subscribed table, rejected by jpeg_make_c_derived_tbl *)
+Theorem C19_counts_above_1e9_lossy_boundary :
+  let n := Z.to_nat 600000009 in
+  let syms := repeat 1 n ++ repeat 2 n ++ repeat 3 n in
+  Forall (okc (CAcSeq 8)) syms /\
+  Z.of_nat (length syms) = 63 * 28571429 /\ 28571429 <= 8188 * 8188 /\
+  exists t, gen_optimal_table (count_syms syms) = inr t /\
+    h_bits t = [0; 3; 0; 0; 0; 0; 0; 0; 0; 0; 0; 0; 0; 0; 0; 0; 0] /\
+    valid_table t = false /\ make_c_derived (h_bits t) (h_vals t) 255 = None.
+Proof. exact huge_lossy_counts_refuted. Qed.
+Print Assumptions C19_counts_above_1e9_lossy_boundary.
+
+(* for every table the library validator accepts, code word and length of every symbol equal those of the independent Annex C reading of C04 (T81Spec.mk_coder), which is a prefix coder *)
+Theorem C19_codes_agree_with_T81 :
+  forall bits vals maxsym ct,
+  length bits = 17%nat -> maxsym <= 256 ->
+  make_c_derived bits vals maxsym = Some ct ->
+  let counts := skipn 1 (firstn 17 bits) in
+  T81HuffProofs.table_ok counts = true /\
+  (forall sym, 0 <= sym ->
+     encode_sym ct sym = T.hc_enc (T.mk_coder counts vals) sym) /\
+  T81BlockProofs.coder_ok (T.hc_enc (T.mk_coder counts vals)) (T.hc_dec (T.mk_coder counts vals)).
+Proof. exact codes_agree_with_T81. Qed.
+Print Assumptions C19_codes_agree_with_T81.
+
+(* hence C04 block/scan round trips apply verbatim to every generated table *)
+Theorem C19_gen_tables_are_T81_coders :
+  forall freq256 : list Z,
+  (forall f, In f freq256 -> 0 <= f) ->
+  sumZ (firstn 256 freq256) + 1 <= SENT ->
+  (length (nz_scan (firstn 256 freq256) 0) <= 254)%nat ->
+  exists t ct, gen_optimal_table freq256 = inr t /\
+    make_c_derived (h_bits t) (h_vals t) 255 = Some ct /\
+    let counts := skipn 1 (firstn 17 (h_bits t)) in
+    T81HuffProofs.table_ok counts = true /\
+    (forall sym, 0 <= sym -> encode_sym ct sym = T.hc_enc (T.mk_coder counts (h_vals t)) sym) /\
+    T81BlockProofs.coder_ok (T.hc_enc (T.mk_coder counts (h_vals t))) (T.hc_dec (T.mk_coder counts (h_vals t))).
+Proof. exact gen_tables_are_T81_coders. Qed.
+Print Assumptions C19_gen_tables_are_T81_coders.
+
+(* library bit-serial decoder and T.81 DECODE agree on every code word followed by arbitrary bits *)
+Theorem C19_decoders_agree_on_code_words :
+  forall bits vals maxsym isDC maxdc ct dt sym code rest,
+  length bits = 17%nat -> maxsym <= 256 ->
+  make_c_derived bits vals maxsym = Some ct ->
+  make_d_derived bits vals isDC maxdc = Some dt ->
+  encode_sym ct sym = Some code -> 0 <= sym ->
+  let counts := skipn 1 (firstn 17 bits) in
+  decode_serial dt 1 (code ++ rest) = Some (sym, false, rest) /\
+  T.hc_dec (T.mk_coder counts vals) (code ++ rest) = Some (sym, rest).
+Proof. exact decoders_agree_on_code_words. Qed.
+Print Assumptions C19_decoders_agree_on_code_words.
